@@ -97,3 +97,14 @@ pub fn pool(k: usize, seed: u64) -> Vec<Vec<Vec<u8>>> {
 pub fn names(n: usize) -> Vec<String> {
     (0..n).map(|i| format!("s{i}")).collect()
 }
+
+/// Sample names whose input order is neither alphabetical nor numeric: an output that lists samples in any order
+/// other than the input's cannot pass for correct
+pub fn odd_name(i: usize) -> String {
+    const P: [&str; 12] = ["z", "m", "a", "r", "b", "x", "k", "d", "p", "e", "w", "c"];
+    format!("{}{}", P[i % 12], i)
+}
+
+pub fn odd_names(n: usize) -> Vec<String> {
+    (0..n).map(odd_name).collect()
+}
